@@ -24,6 +24,11 @@ UnionT(ts)       == [k |-> "union", types |-> ts]
 InterT(ts)       == [k |-> "inter", types |-> ts]
 ParenT(t)        == [k |-> "paren", t |-> t]
 IdxT(obj, index) == [k |-> "idx", obj |-> obj, index |-> index]
+OpT(op, t)       == [k |-> "op", op |-> op, t |-> t]                  \* keyof T / readonly T
+QueryT(name)     == [k |-> "query", name |-> name]                    \* typeof name
+CondT            == [k |-> "cond"]                                     \* X extends Y ? A : B
+QRefT(ns, name)  == [k |-> "qref", ns |-> ns, name |-> name]          \* NS.Name
+MappedT          == [k |-> "mapped"]                                   \* { [K in 'a' | 'b']: string }
 
 (* ---- members of object types ---- *)
 Prop(key, keykind, optional, t) == [k |-> "prop", key |-> key, keykind |-> keykind, optional |-> optional, type |-> t]
@@ -133,10 +138,14 @@ CtorsD(t, env, D) ==         \* sequence of constructor names; "null" = the null
     [] t.k = "paren" -> CtorsD(t.t, env, D)
     [] t.k \in {"union", "inter"} -> Dedup(ConcatAll([i \in 1..Len(t.types) |-> CtorsD(t.types[i], env, D)]))
     [] t.k = "idx" -> CtorsD(IndexResolve(t.obj, t.index, env), env, D)
+    [] t.k = "op" -> IF t.op = "readonly" THEN CtorsD(t.t, env, D) ELSE <<"ANY">>        \* keyof: strings / numbers / symbols - not followed
+    [] t.k \in {"query", "cond", "qref"} -> <<"ANY">>                                    \* nothing is known about their values here
+    [] t.k = "mapped" -> <<"Object">>
     [] t.k = "ref" ->
          IF AliasOf(env, t.name).k # "none" THEN CtorsD(AliasOf(env, t.name).type, env, D)
          ELSE IF InterfacesOf(env, t.name) # <<>> THEN
               LET ms == MembersOf(t, env) IN IF ms = <<>> THEN <<"Object">> ELSE ObjectLikeCtors(ms)
+         ELSE IF Imported(env, t.name) THEN <<"ANY">>          \* also when it is spelled like a built-in (import type { Map } from 'leaflet')
          ELSE IF EnumOf(env, t.name).k # "none" THEN      \* the values of an enum are the strings / numbers of its members
               LET ks == EnumOf(env, t.name).kinds IN
               IF ks = <<>> THEN <<"Number">> ELSE Dedup([i \in 1..Len(ks) |-> IF ks[i] = "str" THEN "String" ELSE "Number"])
